@@ -25,6 +25,10 @@ pub(crate) struct Endpoint {
 
 impl Endpoint {
     pub fn new(config: EndpointConfig, socket: std::net::UdpSocket) -> Result<Self> {
+        #[cfg(bmwill_anemo_verif)]
+        if let Some(injected) = crate::verif::take_injected_socket() {
+            return Self::new_with_injected_socket(config, injected);
+        }
         let local_addr = socket.local_addr()?.pipe(RwLock::new);
         let server_config = config.server_config().clone();
         let endpoint = quinn::Endpoint::new(
@@ -41,6 +45,27 @@ impl Endpoint {
         };
 
         Ok(endpoint)
+    }
+
+    #[cfg(bmwill_anemo_verif)]
+    fn new_with_injected_socket(
+        config: EndpointConfig,
+        socket: Arc<dyn quinn::AsyncUdpSocket>,
+    ) -> Result<Self> {
+        let local_addr = socket.local_addr()?.pipe(RwLock::new);
+        let server_config = config.server_config().clone();
+        let endpoint = quinn::Endpoint::new_with_abstract_socket(
+            config.quinn_endpoint_config(),
+            Some(server_config),
+            socket,
+            Arc::new(quinn::TokioRuntime),
+        )?;
+
+        Ok(Self {
+            inner: endpoint,
+            local_addr,
+            config,
+        })
     }
 
     #[cfg(test)]
